@@ -286,107 +286,37 @@ theorem Index.discard_all_spec (o : O) (ix : Index K V O) (hi : ix.Inv) :
 /-- forward lookup on a bare items dict -/
 def ival (items : List (K × Store O V)) (k : K) (o : O) : Option V := (aget k items).bind (aget o)
 
-omit [DecidableEq K] in
-theorem Store.replace_get (veq : V → V → Bool) (o o' : O) (v : V) (st : Store O V) :
-    aget o' (Store.replace veq o v st) = if o' = o then some (keepOld veq (aget o st) v) else aget o' st := by
-  unfold Store.replace keepOld
-  cases h : aget o st with
-  | none =>
-    simp only [aget_aset]
-  | some v' =>
-    by_cases hv : veq v' v = true
-    · simp only [hv, if_true]
-      by_cases ho : o' = o
-      · subst ho; simp [h]
-      · simp [ho]
-    · show aget o' (if veq v' v = true then st else aset o v st) =
-        if o' = o then some (if veq v' v = true then v' else v) else aget o' st
-      rw [if_neg hv, if_neg hv, aget_aset]
-
-omit [DecidableEq K] in
-theorem Store.replace_ne_nil (veq : V → V → Bool) (o : O) (v : V) (st : Store O V) :
-    Store.replace veq o v st ≠ [] := by
-  unfold Store.replace
-  cases h : aget o st with
-  | none => exact aset_ne_nil _ _ _
-  | some v' =>
-    by_cases hv : veq v' v = true
-    · simp only [hv, if_true]
-      intro hnil
-      simp [hnil] at h
-    · simp only [hv]
-      exact aset_ne_nil _ _ _
-
-theorem foldVal_not_mem {κ ν : Type} [DecidableEq κ] (veq : ν → ν → Bool) (k : κ) (m : List (κ × ν)) :
-    ∀ cur, k ∉ m.map Prod.fst → foldVal veq k m cur = cur := by
-  induction m with
-  | nil => intro cur _; rfl
-  | cons p r ih =>
-    obtain ⟨k', v⟩ := p
-    intro cur h
-    simp only [List.map_cons, List.mem_cons, not_or] at h
-    simp only [foldVal, Ne.symm h.1, if_false]
-    exact ih cur h.2
-
-theorem foldVal_isSome_of_isSome {κ ν : Type} [DecidableEq κ] (veq : ν → ν → Bool) (k : κ) (m : List (κ × ν)) :
-    ∀ cur : Option ν, cur.isSome → (foldVal veq k m cur).isSome := by
-  induction m with
-  | nil => intro cur h; exact h
-  | cons p r ih =>
-    obtain ⟨k', v⟩ := p
-    intro cur h
-    simp only [foldVal]
-    apply ih
-    by_cases hk : k' = k <;> simp [hk, h]
-
-theorem foldVal_isSome_of_mem {κ ν : Type} [DecidableEq κ] (veq : ν → ν → Bool) (k : κ) (m : List (κ × ν)) :
-    ∀ cur : Option ν, k ∈ m.map Prod.fst → (foldVal veq k m cur).isSome := by
-  induction m with
-  | nil => intro cur h; simp at h
-  | cons p r ih =>
-    obtain ⟨k', v⟩ := p
-    intro cur h
-    simp only [foldVal]
-    by_cases hk : k' = k
-    · simp only [hk, if_true]
-      exact foldVal_isSome_of_isSome veq k r _ (by simp)
-    · simp only [hk, if_false]
-      apply ih
-      simp only [List.map_cons, List.mem_cons] at h
-      rcases h with h | h
-      · exact absurd h.symm hk
-      · exact h
-
-theorem replaceLoop_spec (veq : V → V → Bool) (o : O) (m : List (K × V)) :
+theorem replaceLoop_spec (o : O) (m : List (K × V)) :
     ∀ (items : List (K × Store O V)) (rev : List K),
       (∀ k st, aget k items = some st → st ≠ []) → rev.Nodup →
-      (∀ k st, aget k (replaceLoop veq o m (items, rev)).1 = some st → st ≠ []) ∧
-      (replaceLoop veq o m (items, rev)).2.Nodup ∧
-      (∀ k, k ∈ (replaceLoop veq o m (items, rev)).2 ↔ k ∈ rev ∨ k ∈ m.map Prod.fst) ∧
-      (∀ k o', ival (replaceLoop veq o m (items, rev)).1 k o' =
-        if o' = o then foldVal veq k m (ival items k o) else ival items k o') := by
+      (∀ k st, aget k (replaceLoop o m (items, rev)).1 = some st → st ≠ []) ∧
+      (replaceLoop o m (items, rev)).2.Nodup ∧
+      (∀ k, k ∈ (replaceLoop o m (items, rev)).2 ↔ k ∈ rev ∨ k ∈ m.map Prod.fst) ∧
+      (∀ k o', ival (replaceLoop o m (items, rev)).1 k o' =
+        if o' = o then (match lastval k m with | some v => some v | none => ival items k o)
+        else ival items k o') := by
   induction m with
   | nil =>
     intro items rev hs hn
     refine ⟨by simpa [replaceLoop] using hs, by simpa [replaceLoop] using hn, by simp [replaceLoop], ?_⟩
     intro k o'
-    by_cases ho : o' = o <;> simp [replaceLoop, foldVal, ho]
+    by_cases ho : o' = o <;> simp [replaceLoop, lastval, ho]
   | cons p rest ih =>
     obtain ⟨k0, v0⟩ := p
     intro items rev hs hn
     obtain ⟨st0, hst0⟩ : ∃ st0 : Store O V, st0 = (match aget k0 items with | some st => st | none => []) :=
       ⟨_, rfl⟩
-    have hstep : replaceLoop veq o ((k0, v0) :: rest) (items, rev) =
-        replaceLoop veq o rest (aset k0 (Store.replace veq o v0 st0) items, sadd k0 rev) := by
+    have hstep : replaceLoop o ((k0, v0) :: rest) (items, rev) =
+        replaceLoop o rest (aset k0 (aset o v0 st0) items, sadd k0 rev) := by
       rw [hst0]; rfl
     rw [hstep]
-    have hs' : ∀ k st, aget k (aset k0 (Store.replace veq o v0 st0) items) = some st → st ≠ [] := by
+    have hs' : ∀ k st, aget k (aset k0 (aset o v0 st0) items) = some st → st ≠ [] := by
       intro k st h
       rw [aget_aset] at h
       by_cases hk : k = k0
       · simp only [hk, if_true, Option.some.injEq] at h
         subst h
-        exact Store.replace_ne_nil _ _ _ _
+        exact aset_ne_nil _ _ _
       · simp only [hk, if_false] at h
         exact hs k st h
     obtain ⟨a, b, c, d⟩ := ih _ _ hs' (nodup_sadd k0 rev hn)
@@ -410,37 +340,35 @@ theorem replaceLoop_spec (veq : V → V → Bool) (o : O) (m : List (K × V)) :
         rw [hst0]
         unfold ival
         cases aget k0 items <;> simp [aget]
-      have hi1 : ∀ o'', ival (aset k0 (Store.replace veq o v0 st0) items) k o''
-          = if k = k0 then (if o'' = o then some (keepOld veq (ival items k o) v0) else ival items k o'')
-            else ival items k o'' := by
+      have hi1 : ∀ o'', ival (aset k0 (aset o v0 st0) items) k o''
+          = if k = k0 then (if o'' = o then some v0 else ival items k o'') else ival items k o'' := by
         intro o''
         unfold ival
         rw [aget_aset]
         by_cases hk : k = k0
         · subst hk
-          simp only [if_true, Option.bind_some, Store.replace_get, hst0get]
+          simp only [if_true, Option.bind_some, aget_aset, hst0get]
           rfl
         · simp [hk]
       by_cases ho : o' = o
       · subst ho
-        simp only [if_true, foldVal]
-        rw [hi1]
-        by_cases hk : k = k0
-        · subst hk; simp
-        · simp [hk, Ne.symm hk]
+        simp only [if_true, lastval]
+        cases hl : lastval k rest with
+        | some x => simp
+        | none =>
+          rw [hi1]
+          by_cases hk : k = k0
+          · subst hk; simp
+          · simp [hk, Ne.symm hk]
       · simp only [ho, if_false]
         rw [hi1]
         simp [ho]
 
 /-- Specification of `_replace(acckey, m)` under the invariant: afterwards the object's values are
-    those of `m` merged over what was stored (`foldVal`: a new value Python-equal to the stored one
-    leaves the stored one), keys outside `m` are gone, every other object is untouched, and the
-    invariant holds again. -/
-theorem Index.replace_spec (veq : V → V → Bool) (o : O) (m : List (K × V)) (ix : Index K V O) (hi : ix.Inv) :
-    ∃ ix', ix.replace veq o m = some ix' ∧ ix'.Inv ∧
-      (∀ k o', ix'.val k o' =
-        if o' = o then (if k ∈ m.map Prod.fst then foldVal veq k m (ix.val k o) else none)
-        else ix.val k o') := by
+    exactly those of `m`, every other object is untouched, the invariant holds again. -/
+theorem Index.replace_spec (o : O) (m : List (K × V)) (ix : Index K V O) (hi : ix.Inv) :
+    ∃ ix', ix.replace o m = some ix' ∧ ix'.Inv ∧
+      (∀ k o', ix'.val k o' = if o' = o then lastval k m else ix.val k o') := by
   obtain ⟨rev0, hrev0d⟩ : ∃ rev0 : List K, rev0 = (match aget o ix.reverse with | some r => r | none => []) :=
     ⟨_, rfl⟩
   have hrev0 : rev0 = ix.rkeys o := hrev0d
@@ -449,13 +377,13 @@ theorem Index.replace_spec (veq : V → V → Bool) (o : O) (m : List (K × V)) 
     cases h : aget o ix.reverse with
     | none => simp
     | some r => exact hi.revNodup o r h
-  obtain ⟨a, b, c, d⟩ := replaceLoop_spec veq o m ix.items rev0 hi.storeNe hn0
-  obtain ⟨r, hr⟩ : ∃ r, r = replaceLoop veq o m (ix.items, rev0) := ⟨_, rfl⟩
+  obtain ⟨a, b, c, d⟩ := replaceLoop_spec o m ix.items rev0 hi.storeNe hn0
+  obtain ⟨r, hr⟩ : ∃ r, r = replaceLoop o m (ix.items, rev0) := ⟨_, rfl⟩
   rw [← hr] at a b c d
   obtain ⟨ix1, hix1⟩ : ∃ ix1 : Index K V O, ix1 = { items := r.1, reverse := aset o r.2 ix.reverse } := ⟨_, rfl⟩
   have hix1rev : aget o ix1.reverse = some r.2 := by rw [hix1]; exact aget_aset_same _ _ _
   have hval1 : ∀ k o', ix1.val k o' =
-      if o' = o then foldVal veq k m (ix.val k o) else ix.val k o' := by
+      if o' = o then (match lastval k m with | some v => some v | none => ix.val k o) else ix.val k o' := by
     intro k o'
     rw [Index.val_eq, Index.val_eq, Index.val_eq, hix1]
     exact d k o'
@@ -466,9 +394,14 @@ theorem Index.replace_spec (veq : V → V → Bool) (o : O) (m : List (K × V)) 
     · subst ho
       rw [rkeys_of_rev hix1rev, c k, hrev0, hi.cons k o']
       simp only [if_true]
-      by_cases hkm : k ∈ m.map Prod.fst
-      · simp [hkm, foldVal_isSome_of_mem veq k m _ hkm]
-      · simp [hkm, foldVal_not_mem veq k m _ hkm]
+      have hl := lastval_isSome k m
+      cases hlv : lastval k m with
+      | some v =>
+        have : k ∈ m.map Prod.fst := hl.1 (by simp [hlv])
+        simp [this]
+      | none =>
+        have : k ∉ m.map Prod.fst := fun hm => by have := hl.2 hm; simp [hlv] at this
+        simp [this]
     · have : ix1.rkeys o' = ix.rkeys o' := by
         simp [Index.rkeys, hix1, aget_aset_other _ _ ho]
       rw [this]
@@ -498,7 +431,7 @@ theorem Index.replace_spec (veq : V → V → Bool) (o : O) (m : List (K × V)) 
         rw [rkeys_of_rev hix1rev]
         exact ((hks_mem k).1 hk).1)
       (by rw [hksd]; exact List.Nodup.sublist List.filter_sublist b)
-  have hrep : ix.replace veq o m = ix1.discard o (some ks) := by
+  have hrep : ix.replace o m = ix1.discard o (some ks) := by
     rw [hksd, hix1, hr, hrev0d]
     rfl
   refine ⟨ix', by rw [hrep]; exact h1, ⟨h2, h3, ?_, h4⟩, ?_⟩
@@ -511,15 +444,15 @@ theorem Index.replace_spec (veq : V → V → Bool) (o : O) (m : List (K × V)) 
     by_cases ho : o' = o
     · subst ho
       simp only [true_and, if_true, dkeys]
-      by_cases hkm : k ∈ m.map Prod.fst
-      · have hk : k ∉ ks := fun hk => ((hks_mem k).1 hk).2 hkm
-        simp [hk, hkm]
-      · simp only [hkm, if_false]
-        by_cases hk : k ∈ ks
-        · simp [hk]
-        · simp only [hk, if_false]
-          -- `k` is no key of `m` and not in the difference set, hence not in the reverse set at all
-          rw [foldVal_not_mem veq k m _ hkm]
+      by_cases hk : k ∈ ks
+      · have := ((hks_mem k).1 hk).2
+        simp [hk, lastval_none_of_not_mem k m this]
+      · simp only [hk, if_false]
+        cases hlv : lastval k m with
+        | some v => rfl
+        | none =>
+          have hkm : k ∉ m.map Prod.fst := fun hm => by
+            have := (lastval_isSome k m).2 hm; simp [hlv] at this
           have hkr : k ∉ r.2 := fun hr' => hk ((hks_mem k).2 ⟨hr', hkm⟩)
           have hk0 : k ∉ ix.rkeys o' := fun h0 => hkr ((c k).2 (Or.inl (hrev0 ▸ h0)))
           exact val_none_of_not_rkeys hi.cons hk0
